@@ -77,13 +77,13 @@ pub fn entrait_for_single_fn(attr: &EntraitFnAttr, input_fn: InputFn) -> syn::Re
     let InputFn {
         fn_attrs,
         fn_vis,
-        fn_sig,
+        fn_sig_tokens,
         fn_body,
         ..
     } = input_fn;
 
     let out = quote! {
-        #(#fn_attrs)* #fn_vis #fn_sig #fn_body
+        #(#fn_attrs)* #fn_vis #fn_sig_tokens #fn_body
         #trait_def
         #impl_block
     };
